@@ -26,6 +26,7 @@ Sim *make_hashlong_sim();
 Sim *make_hashgiant_sim();
 Sim *make_l2mgr_sim();
 Sim *make_stream_sim();
+Sim *make_streamhuge_sim();
 Sim *make_oneshot_sim();
 Sim *make_dispatch_sim();
 Sim *make_fipsgate_sim();
